@@ -436,6 +436,9 @@ class ModuleVistor(NodeVisitor):
     def _canAdoptModule(current: model.Documentable, mod: model.Module) -> bool:
         if not isinstance(current, model.Package):
             return False
+        if mod.parent is None:
+            # A root module has no parent to be taken from: it stays a root module.
+            return False
         anc: Optional[model.Documentable] = current
         while anc is not None:
             if anc is mod:
